@@ -264,11 +264,32 @@ def sliceBounds (a b : Option Int) (n : Nat) : Nat × Nat :=
     | some i => clampIdx i n
   (s, max s e)
 
+/-- `range(*slice(a, b, st).indices(n))` for `st ≠ 0` (extended slice) -/
+def sliceIdx (a b : Option Int) (st : Int) (n : Nat) : List Nat :=
+  let lo : Int := if st > 0 then 0 else -1
+  let hi : Int := if st > 0 then n else (n : Int) - 1
+  let clamp (i : Int) : Int :=
+    let j := if i < 0 then i + n else i
+    if j < lo then lo else if j > hi then hi else j
+  let start : Int := match a with
+    | none => if st > 0 then 0 else (n : Int) - 1
+    | some i => clamp i
+  let stop : Int := match b with
+    | none => if st > 0 then n else -1
+    | some i => clamp i
+  let cnt : Int := if st > 0 then (stop - start + st - 1) / st else (start - stop - st - 1) / (-st)
+  (List.range cnt.toNat).map (fun (j : Nat) => (start + (j : Int) * st).toNat)
+
+/-- `x[i] = v` for the pairs of an extended slice assignment, one after the other -/
+def setAll (ps : List (Nat × T)) (xs : Items) : Items := ps.foldl (fun acc p => acc.set p.1 (li p.2)) xs
+
 inductive LMut where
   | setitem (i : Int) (v : T)
   | setslice (a b : Option Int) (k : IterKind) (vs : List T)      -- `x[a:b] = iterable` (step None)
+  | setsliceStep (a b : Option Int) (st : Int) (k : IterKind) (vs : List T)   -- `x[a:b:st] = iterable`, st ∉ {0, 1}: lengths must agree
   | delitem (i : Int)
   | delslice (a b : Option Int)
+  | delsliceStep (a b : Option Int) (st : Int)                                  -- `del x[a:b:st]`
   | append (v : T)
   | extend (k : IterKind) (vs : List T)
   | insert (i : Int) (v : T)
@@ -296,8 +317,8 @@ inductive DMut where
   deriving Repr, Inhabited
 
 def LMut.meth : LMut → LM
-  | .setitem _ _ | .setslice _ _ _ _ => .setitem
-  | .delitem _ | .delslice _ _ => .delitem
+  | .setitem _ _ | .setslice _ _ _ _ | .setsliceStep _ _ _ _ _ => .setitem
+  | .delitem _ | .delslice _ _ | .delsliceStep _ _ _ => .delitem
   | .append _ => .append | .extend _ _ => .extend | .insert _ _ => .insert | .pop _ => .pop | .remove _ => .remove
   | .reverse => .reverse | .sort _ | .sortFail | .sortRaise _ => .sort | .clear => .clear | .iadd _ _ => .iadd | .imul _ => .imul
 
@@ -316,7 +337,7 @@ def notifies (cfg : Cfg) (m : LMut) : Bool := !m.raises || cfg.notifyOnError
 /-- the values a mutator stores into the container -/
 def LMut.args : LMut → List T
   | .setitem _ v | .append v | .insert _ v => [v]
-  | .setslice _ _ _ vs | .extend _ vs | .iadd _ vs => vs
+  | .setslice _ _ _ vs | .setsliceStep _ _ _ _ vs | .extend _ vs | .iadd _ vs => vs
   | _ => []
 
 def DMut.args : DMut → List T
@@ -332,9 +353,17 @@ def lEffect : LMut → Items → Except Err Items
   | .setslice a b _ vs, xs =>
       let se := sliceBounds a b xs.length
       .ok (xs.take se.1 ++ vs.map li ++ xs.drop se.2)
+  | .setsliceStep a b st _ vs, xs =>
+      if st == 0 then .error .value else
+      let idx := sliceIdx a b st xs.length
+      if idx.length != vs.length then .error .value else .ok (setAll (idx.zip vs) xs)
   | .delitem i, xs => match normIdx i xs.length with
       | some j => .ok (xs.eraseIdx j)
       | none => .error .index
+  | .delsliceStep a b st, xs =>
+      if st == 0 then .error .value else
+      let idx := sliceIdx a b st xs.length
+      .ok ((List.range xs.length).filterMap (fun i => if idx.contains i then none else xs[i]?))
   | .delslice a b, xs =>
       let se := sliceBounds a b xs.length
       .ok (xs.take se.1 ++ xs.drop se.2)
@@ -393,6 +422,7 @@ def makePairs (cfg : Cfg) (m : IM) (k : IterKind) (ps : Items) : Items :=
 def LMut.prep (cfg : Cfg) : LMut → LMut
   | .setitem i v => .setitem i (make cfg v)
   | .setslice a b k vs => .setslice a b k (makeVals cfg .setslice k vs)
+  | .setsliceStep a b st k vs => .setsliceStep a b st k (makeVals cfg .setslice k vs)
   | .append v => .append (make cfg v)
   | .extend k vs => .extend k (makeVals cfg .extend k vs)
   | .insert i v => .insert i (make cfg v)
@@ -417,7 +447,7 @@ def atomOk : Kind → T → Bool
 /-- does the call get past the validation in TrackedArray's methods (slice assignment validates the list as ONE item) -/
 def LMut.valid (k : Kind) : LMut → Bool
   | .setitem _ v | .append v | .insert _ v => atomOk k v
-  | .setslice _ _ _ _ => false
+  | .setslice _ _ _ _ | .setsliceStep _ _ _ _ _ => false
   | .extend _ vs | .iadd _ vs => vs.all (atomOk k)
   | _ => true
 
